@@ -65,7 +65,11 @@ pub static LAST_PANIC: std::sync::Mutex<(String, String)> = std::sync::Mutex::ne
 /// are left out so that unrelated edits do not change the site name.
 pub fn panic_site() -> String {
     let (loc, msg) = LAST_PANIC.lock().unwrap().clone();
-    let file = loc.rsplit_once(':').map(|x| x.0).unwrap_or(&loc).trim_start_matches("/repo/").to_string();
+    let file = loc.rsplit_once(':').map(|x| x.0).unwrap_or(&loc).to_string();
+    // path relative to the repository root, wherever the repository lives (/repo, or a snapshot of it)
+    let file = ["/plonky2/src/", "/starky/src/", "/field/src/", "/util/src/", "/maybe_rayon/src/"].iter()
+        .filter_map(|m| file.rfind(m).map(|i| file[i + 1..].to_string())).next()
+        .unwrap_or_else(|| file.trim_start_matches("/repo/").to_string());
     let class: String = msg.chars().take(60).map(|c| if c.is_ascii_alphanumeric() { c } else { '_' }).collect();
     // strip run-dependent numbers
     let class: String = class.split('_').filter(|w| !w.is_empty() && !w.chars().all(|c| c.is_ascii_digit())).collect::<Vec<_>>().join("_");
